@@ -132,6 +132,16 @@ func extractReceiverInfo(pass *analysis.Pass, funcDecl *ast.FuncDecl) *receiverI
 	}
 }
 
+// isInConstructor reports whether the current function is a declared constructor of the type.
+// Constructors are functions of the package that declares the type, so a function with the
+// same name in another package is not exempt.
+func isInConstructor(ctx *checkerContext, pkgPath string, typeName string) bool {
+	if ctx.currentFunction == nil || ctx.pass.Pkg == nil || ctx.pass.Pkg.Path() != pkgPath {
+		return false
+	}
+	return ctx.constructors.Match(pkgPath, *ctx.currentFunction, typeName)
+}
+
 func checkAssignment(
 	ctx *checkerContext,
 	node *ast.AssignStmt,
@@ -198,7 +208,7 @@ func checkFieldAssignment(
 		return nil
 	}
 
-	if ctx.constructors.Match(pkgPath, *ctx.currentFunction, typeName) {
+	if isInConstructor(ctx, pkgPath, typeName) {
 		return nil
 	}
 
@@ -252,7 +262,7 @@ func checkIndexAssignment(
 		return nil
 	}
 
-	if ctx.constructors.Match(pkgPath, *ctx.currentFunction, typeName) {
+	if isInConstructor(ctx, pkgPath, typeName) {
 		return nil
 	}
 
@@ -328,7 +338,7 @@ func checkFieldIncDec(
 		return nil
 	}
 
-	if ctx.constructors.Match(pkgPath, *ctx.currentFunction, typeName) {
+	if isInConstructor(ctx, pkgPath, typeName) {
 		return nil
 	}
 
@@ -378,7 +388,7 @@ func checkReceiverIncDec(
 	}
 
 	// Allow in constructors
-	if ctx.constructors.Match(ctx.currentReceiver.pkgPath, *ctx.currentFunction, ctx.currentReceiver.typeName) {
+	if isInConstructor(ctx, ctx.currentReceiver.pkgPath, ctx.currentReceiver.typeName) {
 		return nil
 	}
 
@@ -449,7 +459,7 @@ func checkCompoundLHS(
 		return nil
 	}
 
-	if ctx.constructors.Match(pkgPath, *ctx.currentFunction, typeName) {
+	if isInConstructor(ctx, pkgPath, typeName) {
 		return nil
 	}
 
@@ -497,7 +507,7 @@ func checkReceiverReassignment(
 	}
 
 	// Allow reassignment in constructors
-	if ctx.constructors.Match(ctx.currentReceiver.pkgPath, *ctx.currentFunction, ctx.currentReceiver.typeName) {
+	if isInConstructor(ctx, ctx.currentReceiver.pkgPath, ctx.currentReceiver.typeName) {
 		return nil
 	}
 
